@@ -698,7 +698,7 @@ def _moves(job, ctx):
                               "%s leaf, items %s, %s, then %s=%s on the followed item" % (kind, prior, move, target, V.show(bad, 20)), exc, want + "." + target, name)
     # stand-alone configurations that are attached later
     for warm in (False, True):
-        for how in ("ctype-to-field", "ctype-to-list", "schema-item-to-list"):
+        for how in ("ctype-to-field", "ctype-to-list", "schema-item-to-list", "template-to-section", "ctype-to-section", "other-section-to-section", "template-to-deep-section"):
             key = ["standalone", warm, how]
             if only is not None and only != key:
                 continue
@@ -720,6 +720,33 @@ def _moves(job, ctx):
                 cfg.ts = []
                 cfg.ts.append(obj)
                 want = "ts[0].c"
+            elif how.endswith("-section"):
+                # a plain section is given a configuration object that was not built from the section's own sub-schema: a
+                # stand-alone template, a config-type instance, the section of another root that sits under another key
+                import cincoconfig as cc
+                field_key = "e" if how == "template-to-deep-section" else "c"
+                if how.startswith("template"):
+                    tmpl = cc.Schema()
+                    setattr(tmpl, field_key, R.mk_field(W.catalogue()[kind][0]))
+                    obj = tmpl()
+                elif how == "ctype-to-section":
+                    obj = schema._fields["t"].config_type()
+                else:
+                    obj = schema().proto
+                    obj.c = okv
+                if warm:
+                    str(attempt(lambda: setattr(obj, field_key, bad)))
+                if how == "template-to-deep-section":
+                    cfg.sub.deep = obj
+                    want = "sub.deep.e"
+                else:
+                    cfg.sub = obj
+                    want = "sub.c"
+                exc = attempt(lambda: setattr(obj, field_key, bad))
+                ctx.case(tuple(map(str, key)), "standalone:%s" % how, True)
+                judge(ctx, job, key, "C15|moves|%s|standalone|%s" % (kind, how) + ("|warm" if warm else ""),
+                      "%s leaf, stand-alone configuration attached by %s" % (kind, how), exc, want, None)
+                continue
             else:
                 obj = schema._fields["items"].field()
                 obj.r = "x"
